@@ -124,13 +124,13 @@ CHECKS = {
         'Theorems (Props_C11.v, closed): C11_truth (own t = Some w <-> t in wbs_tasks w), C11_reach, C11_whole_subtree / C11_subtree / C11_subtree_children, C11_removed_list / _wbs / _assignment / _list_all / _wbs_all (removed task: no owner, no parent [except a match below another match], in no WBS, ownership guard can no longer reject it).',
         GT, '4.11'),
     'C15': (
-        'Coq proof that a non-OK outcome leaves the state unchanged for 21 operation kinds (syntactic validate-then-write shape; loops: element calls never raise on WF states), refutation witnesses for the 3 non-atomic kinds (recorded known findings) + full-snapshot comparison before/after every raising call of generated histories',
-        'Theorems (Props_C15.v, closed): C15_atomic / C15_atomic_core (18 kinds, all states), C15_atomic_wf (21 kinds under WF), C15_remove_all_never_raises, C15_atomic_reach; C15_refuted_lst_shift, C15_refuted_lst_set_parent, C15_refuted_new_task_rel are the three open findings (KNOWN-FINDING lines).',
+        'Coq proof that a non-OK outcome leaves the state unchanged for all 24 operation kinds (every setter validates before it writes; sequences of setter calls - constructor, list-level << / >>, bulk parent - are undone as a whole; remove_all loops never raise on WF states), refutation witnesses for the three sequences without the undo (the code before fix 0693848) + full-snapshot comparison before/after every raising call of generated histories',
+        'Theorems (Props_C15.v, closed): C15_atomic / C15_atomic_core (21 kinds, all states), C15_atomic_every_op (all 24 kinds under WF), C15_atomic_reach (every state reached by a public history), C15_remove_all_never_raises, C15_all_or_nothing; C15_refuted_lst_shift, C15_refuted_lst_set_parent, C15_refuted_new_task_rel refute the bare sequences (finding F10, repaired in /repo by 0693848).',
         GT, '4.15'),
     'C16': (
         'Coq proof of the documented effect of every accepted mutator (exact new lists for assignment, append, insert, move, stable sort, reorder, removals; effect of the three setters incl. owner propagation and mirror lists) and of per-setter frame theorems + full-state comparison of model and implementation after every accepted call',
         'Theorems (Props_C16.v, closed): C16_move, C16_insert, C16_sort (permutation, sorted, stable, reverse), C16_reorder, C16_append, C16_remove, C16_remove_all, C16_floordiv, C16_wbs_remove, C16_set_parent, C16_set_children(+own), C16_set_links, C16_mirror, C16_frame_set_parent/_children/_links/_derived, C16_frame_only_kids.',
-        GT + ' Sort keys restricted to id / integer attribute / name (totally ordered); the frame is stated per setter.', '4.16'),
+        GT + ' Sort keys restricted to id / integer attribute / name / estimate (None values raise TypeError); the frame is stated per setter.', '4.16'),
 }
 
 NOT_YET = 'check not built yet in this round (planned, see DESIGN.md section 4)'
